@@ -94,6 +94,13 @@ func gen(tier string, rng *h.Rng, emit0 func(string)) {
 	} {
 		emit(l)
 	}
+	// session ids of every length (the id is a field of every key-generation message: "long" of the quantifier).
+	// A group id is 32 bytes in the node; 64 / 65 / 256 / 257 / 70000 are the lengths a length test would pick
+	for _, n := range []int{31, 32, 33, 64, 65, 255, 256, 257, 4096, 70000} {
+		sid := strings.Repeat("s", n)
+		emit("sess r:" + sid + ":2;m:" + sid + ":p1;m:" + sid + ":p2")
+		emit("sess m:" + sid + ":d1;m:" + sid + ":r1.2;m:" + sid + ":r1.n;r:" + sid + ":3")
+	}
 	for i := 0; i < scale(60, 600); i++ {
 		var evs []string
 		for k := 1 + rng.Intn(12); k > 0; k-- {
@@ -263,7 +270,8 @@ func gen(tier string, rng *h.Rng, emit0 func(string)) {
 	// ---- queryLoop ----------------------------------------------------------
 	hon("qloop r:0a;s:0a")
 	for _, l := range []string{"qloop s:-", "qloop s:-;s:-;r:-;s:-", "qloop o;s:00;o", "qloop s:0a;s:0a;s:0b;r:0a;r:0b;s:0a", "qloop r:0a;r:0a;s:0a",
-		"qloop r:-;s:-;s:0a", "qloop s:" + strings.Repeat("ab", 300) + ";r:" + strings.Repeat("ab", 300)} {
+		"qloop r:-;s:-;s:0a", "qloop s:" + strings.Repeat("ab", 300) + ";r:" + strings.Repeat("ab", 300),
+		"qloop s:" + strings.Repeat("cd", 33) + ";r:" + strings.Repeat("cd", 33) + ";s:" + strings.Repeat("cd", 33), "qloop r:" + strings.Repeat("ef", 70000) + ";s:" + strings.Repeat("ef", 70000)} {
 		emit(l)
 	}
 	for i := 0; i < scale(25, 300); i++ {
@@ -731,7 +739,7 @@ func genFuzz(rng *h.Rng, emit func(string), thorough bool) {
 	}
 	// sealed deal plaintexts (dedis/protobuf decoder behind the AEAD)
 	w := newWorld(3, 0)
-	poly := share.NewPriPoly(suite, 2, scalarOf("fz", 1), suite.RandomStream())
+	poly := share.NewPriPoly(suite, 2, scalarOf("fz", 1), rngStream{rng}) // coefficients from the harness PRNG: ops.txt is a function of VERIF_SEED
 	_, commits := poly.Commit(suite.Point().Base()).Info()
 	sid, _ := vss.VerifSessionID(suite, w.pubs[1], w.pubs, commits, 2)
 	goodDeal, err := protobuf.Encode(&vss.Deal{SessionID: sid, SecShare: poly.Eval(0), T: 2, Commitments: commits})
@@ -758,7 +766,9 @@ func genFuzz(rng *h.Rng, emit func(string), thorough bool) {
 	}
 	// wire encodings of the key-generation and share messages
 	var msgs [][]byte
-	enc := w.buildEnc(1, "E/1/1/12/P/I0V1/2/1/1")
+	// the shape of a sealed deal with bytes from the harness PRNG (a real seal draws its ephemeral key from the
+	// repository's random stream, which made ops.txt differ from run to run; this stream only feeds the wire decoder)
+	enc := &vss.EncryptedDeal{DHKey: mustBin(pubOf(scalarOf("fzdh", 1))), Signature: rng.Bytes(64), Nonce: make([]byte, 12), Cipher: rng.Bytes(96)}
 	for _, m := range []proto.Message{
 		&dkg.Deal{SessionId: "s", Index: 1, Deal: enc}, &dkg.Deal{SessionId: "s", Index: 1},
 		&dkg.Responses{SessionId: "s", Response: []*dkg.Response{{Index: 1, Response: &vss.Response{SessionID: sid, Index: 2, Status: true, Signature: []byte("x")}}, {Index: 2}}},
@@ -876,3 +886,13 @@ var _ kyber.Point
 var _ = p2p.NoDiscover
 
 func pickInt(r *h.Rng, xs ...int) int { return xs[r.Intn(len(xs))] }
+
+// rngStream: a cipher.Stream over the harness PRNG (for the repository's Pick(stream) calls at generation time)
+type rngStream struct{ r *h.Rng }
+
+func (s rngStream) XORKeyStream(dst, src []byte) {
+	k := s.r.Bytes(len(src))
+	for i := range src {
+		dst[i] = src[i] ^ k[i]
+	}
+}
